@@ -5,7 +5,7 @@ from __future__ import annotations
 import ast
 from typing import Dict, List, Optional, Set, Tuple
 
-from .core import AnalysisError, Ctx, Repo, dotted, effective_body, norm, walk_local
+from .core import stmts_local, AnalysisError, Ctx, Repo, dotted, effective_body, norm, walk_local
 from .paths import enumerate_paths
 
 CMP_DUNDERS = {"__eq__", "__ne__", "__lt__", "__le__", "__gt__", "__ge__"}
@@ -133,13 +133,17 @@ def self_reads(repo: Repo, cls: str, meth: ast.FunctionDef, seen=None) -> Tuple[
 def has_class_tag(fn: ast.FunctionDef) -> bool:
     """some dict display in the method maps "class" to type(self).__name__."""
     selfname = fn.args.args[0].arg
+    want = (f"type({selfname}).__name__", f"{selfname}.__class__.__name__")
     for n in walk_local(fn):
         if isinstance(n, ast.Dict):
             for k, v in zip(n.keys, n.values):
-                if isinstance(k, ast.Constant) and k.value == "class":
-                    t = norm(v)
-                    if t in (f"type({selfname}).__name__", f"{selfname}.__class__.__name__"):
-                        return True
+                if isinstance(k, ast.Constant) and k.value == "class" and norm(v) in want:
+                    return True
+        # step-wise construction of a local dict: d["class"] = type(self).__name__
+        if isinstance(n, ast.Assign) and len(n.targets) == 1 and isinstance(n.targets[0], ast.Subscript) and isinstance(n.targets[0].value, ast.Name) \
+                and isinstance(n.targets[0].slice, ast.Constant) and n.targets[0].slice.value == "class" and norm(n.value) in want \
+                and n in fn.body:
+            return True
     return False
 
 
@@ -199,8 +203,18 @@ def run_hash_rules(ctx: Ctx, pfx: str):
         # a stored hash attribute is the same defect without a decorator
         for d, fn in ci.methods.items():
             if d in ("__hash__", "__eq__"):
+                params = {a.arg for a in fn.args.args}
+                local_fresh = {t.id for x in stmts_local(fn.body) if isinstance(x, ast.Assign) for t in x.targets if isinstance(t, ast.Name)
+                               and (isinstance(x.value, (ast.Dict, ast.List, ast.Set, ast.DictComp, ast.ListComp, ast.SetComp))
+                                    or (isinstance(x.value, ast.Call) and dotted(x.value.func) in ("dict", "list", "set", "sorted")))}
+                not_fresh = {t.id for x in stmts_local(fn.body) if isinstance(x, ast.Assign) for t in x.targets if isinstance(t, ast.Name)} - local_fresh
                 for n in walk_local(fn):
                     if isinstance(n, (ast.Attribute, ast.Subscript)) and isinstance(n.ctx, ast.Store):
+                        root = n
+                        while isinstance(root, (ast.Attribute, ast.Subscript)):
+                            root = root.value
+                        if isinstance(root, ast.Name) and root.id in local_fresh and root.id not in params and isinstance(n, ast.Subscript) and n.value is root:
+                            continue  # filling a dict / list built in this call
                         ctx.ob(f"{pfx}-H0", f"models.{c}.{d}/pure", False,
                                "hash/equality must not store state on the object", node=n, mod=m)
 
